@@ -426,6 +426,10 @@ where
                     }
                     Ok(None) => (),
                 }
+            } else if let Err(err) = res {
+                // an error is not a response: it must not wait behind pending responses
+                // (same as `handle_result` for a request that is not the oldest one)
+                self.state.error.set(Some(IoDispatcherError::Service(err)));
             } else {
                 queue.push_back(ServiceResult::Ready(res));
                 self.state.response_idx.set(self.state.base.get().wrapping_add(queue.len()));
